@@ -12,7 +12,12 @@
 (* _should_generate_support, SupportGenerator.get_templates/generate_all, DSDLCodeGenerator.generate_all with the  *)
 (* template look-up that can fail for namespaces, the is_dryrun guard in front of every write.  TLC checks          *)
 (* I => P (invariant Refines) over the full option product x all interleavings of the four modes x one perturbed    *)
-(* input class; three switches select the behaviour of the code as found (FALSE) or repaired (TRUE).               *)
+(* input class; three switches select the behaviour of the code as found (FALSE) or repaired (TRUE):               *)
+(*   FwdOmitToList  D1   --generate-support only --omit-serialization-support --list-outputs names the support file *)
+(*   ListDeps       D12  --list-inputs does not name the --lookup-dir definitions the generated types depend upon    *)
+(*   ListUserSup    D15  --list-inputs names the built-in support template although a --support-templates file of   *)
+(*                       the same name is the one rendered (and does not name that file nor what it includes)        *)
+(* With a switch FALSE the corresponding refinement invariant must be REFUTED (negative controls in c08.py).        *)
 EXTENDS Naturals, Sequences, FiniteSets, TLC, Json
 
 (* =============================================== PART 1: P-layer =============================================== *)
